@@ -93,32 +93,65 @@ func stalledBase(variant string, k int) scenarioT {
 	return sc
 }
 
-// nameStall names a stall of a stress run. With the 'stalled-reader' kind in the scenario the name is the variant plus
-// the place where the goroutine that the trigger set in motion waits for a lock (the handler that read the DISCONNECT
-// or the end of the stream, the handler of the connection taking the session over, Server.Close): that goroutine is
-// the one whose progress would have closed the stalled connection. Everything else goes by stallSignature.
-func nameStall(sc scenarioT, ws []waiterT) (sig string, culprit *waiterT) {
-	if sc.Stalled != nil {
-		marker := map[string]string{"disconnect": "Server.processDisconnect", "disconnect-expiry": "Server.processDisconnect", "takeover": "Server.inheritClientSession", "server-close": "Server.closeListenerClients"}[sc.Stalled.Variant]
-		has := func(w waiterT, f string) bool {
-			for _, x := range w.Frames {
-				if x == f {
-					return true
-				}
+// ownOnly is what nameStall returns for a stall in which only the stalled connection's own goroutines wait: no verdict.
+const ownOnly = "stalled-reader:own-connection-only"
+
+// nameStall names a stall of a stress run. With the 'stalled-reader' kind in the scenario the waiters are first split
+// into the stalled connection's OWN goroutines (its handler, identified by goroutine id, and write loops, which only
+// ever touch their own client) and FOREIGN ones. In this order:
+//  1. a foreign goroutine set in motion by the trigger waits for a lock (the handler of the connection taking the
+//     session over, Server.Close): variant + the place where it waits;
+//  2. the stalled connection's handler has read the trigger (DISCONNECT, end of stream) and waits for a lock on its way
+//     to closing the connection: variant + place;
+//  3. other foreign goroutines (publishers, housekeeping) wait for a lock behind the blocked write: the stalled
+//     reader blocks others, named by the place;
+//  4. only the connection's own goroutines wait (its handler could not even read the trigger because it is itself
+//     writing to the peer that does not read): that is flow control towards one peer, not a deadlock of the broker -
+//     ownOnly, not judged.
+//
+// Everything else goes by stallSignature.
+func nameStall(sc scenarioT, ws []waiterT, ownG int) (sig string, culprit *waiterT) {
+	if sc.Stalled == nil || len(ws) == 0 {
+		return stallSignature(ws)
+	}
+	v := sc.Stalled.Variant
+	has := func(w waiterT, f string) bool {
+		for _, x := range w.Frames {
+			if x == f {
+				return true
 			}
-			return false
 		}
-		for i, w := range ws {
-			ok := marker != "" && has(w, marker)
-			if marker == "" { // half-close / reset: the stalled connection's own handler, after its read loop ended
-				ok = has(w, "Server.attachClient") && !has(w, "Client.Read") && !has(w, "Server.inheritClientSession")
-			}
-			if ok {
-				return "C32-stalled-reader-" + sc.Stalled.Variant + "-" + waitPlace(w), &ws[i]
-			}
+		return false
+	}
+	own := func(w waiterT) bool { return w.G == ownG || w.Frames[len(w.Frames)-1] == "Client.WriteLoop" }
+	foreignMarker := map[string]string{"takeover": "Server.inheritClientSession", "server-close": "Server.closeListenerClients"}[v]
+	for i, w := range ws {
+		if foreignMarker != "" && !own(w) && has(w, foreignMarker) {
+			return "C32-stalled-reader-" + v + "-" + waitPlace(w), &ws[i]
 		}
 	}
-	return stallSignature(ws)
+	for i, w := range ws {
+		if w.G != ownG {
+			continue
+		}
+		read := has(w, "Server.processDisconnect") // disconnect, disconnect-expiry
+		if v == "half-close" || v == "reset" {
+			read = has(w, "Server.attachClient") && !has(w, "Client.Read")
+		}
+		if read {
+			return "C32-stalled-reader-" + v + "-" + waitPlace(w), &ws[i]
+		}
+	}
+	best := -1
+	for i, w := range ws {
+		if !own(w) && (best < 0 || waitPlace(w) < waitPlace(ws[best])) {
+			best = i
+		}
+	}
+	if best >= 0 {
+		return "C32-stalled-reader-blocks-others-" + waitPlace(ws[best]), &ws[best]
+	}
+	return ownOnly, nil
 }
 
 // waitPlace: the innermost repository function of the waiter and its first different caller.
@@ -246,7 +279,12 @@ func checkStress32(sc scenarioT, r *evid.Rec) []evid.Disc {
 	case res.Stall == "lock-waiters":
 		r.Label("stress:stalled-with-lock-waiters")
 		r.NonTrivial("stress|" + scenarioKey(sc))
-		sig, culprit := nameStall(sc, res.Waiters)
+		sig, culprit := nameStall(sc, res.Waiters, res.StalledHandlerG)
+		if sig == ownOnly {
+			r.Label("stalled-reader:only-the-stalled-connection's-own-goroutines-wait(flow control, not judged)")
+			r.NotAsserted()
+			break
+		}
 		var b strings.Builder
 		gs := parseDump(res.Dump)
 		shown := 0
